@@ -13,7 +13,13 @@ Definition rng (a b : nat) : list nat := seq a (b - a).              (* np.arang
 
 (* a candidate modification: the cells and their new values *)
 Definition mods := list (nat * Z).
-Definition cost (e : list Z) (m : mods) : Z := zsum (map (fun p => Z.abs (zn e (fst p) - snd p)) m).
+(* cost = np.sum(np.abs(elevtn[idxs] - zmod)): exact for floats and (away from overflow) signed integers; for an unsigned
+   element type of modulus w the difference wraps and np.abs is the identity.  The fixer is parametrised by the cost
+   function: the contract is proved for EVERY cost function (the cost only selects among three repairs that are each
+   admissible), so it holds for every element type whatever its arithmetic does to the cost. *)
+Definition cost_exact (e : list Z) (m : mods) : Z := zsum (map (fun p => Z.abs (zn e (fst p) - snd p)) m).
+Definition cost_wrap (w : Z) (e : list Z) (m : mods) : Z := zsum (map (fun p => (zn e (fst p) - snd p) mod w) m).
+Definition cost_of (w : Z) : list Z -> mods -> Z := if w =? 0 then cost_exact else cost_wrap w.
 Definition apply_mods (e : list Z) (m : mods) : list Z := fold_left (fun a p => upd a (fst p) (snd p)) m e.
 
 (* np.unique(...)[::-1] : sorted descending, no duplicates *)
@@ -32,6 +38,9 @@ Fixpoint first_le (e : list Z) (z : Z) (a : nat) (len : nat) : nat :=
   end.
 
 Record fst1 := { fe : list Z; fimax : nat; fimin : option nat; fzmax : Z; fzmin : Z; fz1 : Z; fz2 : Z }.
+
+Section Fix.
+Variable cost : list Z -> mods -> Z.
 
 (* option 3: state (i0, i1, best cost, best mods) folded over zs[1:] *)
 Definition opt3_step (e : list Z) (im imax i : nat) (st : nat * nat * Z * mods) (z : Z) : nat * nat * Z * mods :=
@@ -75,6 +84,8 @@ Definition fix1d (e : list Z) : list Z :=
     fe (fold_left (fix_step n) (seq 0 n)
          {| fe := e1; fimax := 0; fimin := None; fzmax := e0; fzmin := e0; fz1 := e0; fz2 := e0 |})
   end.
+
+End Fix.
 
 (* ---------- tree level: adjust_elevation with an arbitrary 1-D fixer F ---------- *)
 
